@@ -24,6 +24,7 @@ EXPLANATION = (
     "T: by A-smawk the back-trace is an arg-min of the model R2 whenever the cost matrix is totally monotone. "
     "U (not applicable to static analysis): total monotonicity under the statement's side conditions, exact representability in "
     "f64, and the correctness of the smawk crate are numeric facts, not facts about the shape of this code."
+    " (R6) imported lemma C02 for the text-level clause: the line widths passed to the algorithm are the configured width minus the indent each line is rendered with."
 )
 ASSUMPTIONS = ["A-rustc", "A-smawk", "real-valued reading of f64 +,-,*,/ and comparisons (NaN-free)"]
 LEVEL_TEXT = (
@@ -248,13 +249,34 @@ def run(prog, rep):
     guarded(rep, "C03.R3", LN, lambda: _line_numbers(prog, rep))
     guarded(rep, "C06.R3", OF, lambda: C06._optimal_chain(prog, rep))
     guarded(rep, "C03.R5", "crate::wrap_algorithms::WrapAlgorithm::wrap", lambda: _dispatch(prog, rep))
+    # text level ("wrap/fill ... produce, for each paragraph, such a minimum-cost arrangement"): the line widths the
+    # cost model is evaluated with are the space beside the indent each line is rendered with (C02: slow-path plumbing)
+    if not _IN_LEMMA[0]:
+        lemmas.load_all()
+        st = lemmas.status(prog, "C02")
+        if st == "ok":
+            rep.ok("C03.R6", "crate", "lemma C02 holds in this run", "evaluated: ok", nontrivial=False)
+        else:
+            rep.violation("C03.R6", "crate", "lemma:C02", "crate", "lemma C02 is %s in this run: the widths handed to optimal-fit are not "
+                          "those of the rendered lines, so the arrangement is optimal for the wrong line widths" % st)
+
+
+_IN_LEMMA = [False]
+
+
+def _run_core(prog, rep):
+    _IN_LEMMA[0] = True
+    try:
+        run(prog, rep)
+    finally:
+        _IN_LEMMA[0] = False
 
 
 def _lemma(prog):
     from ..engine import Report
     rep = Report("C03")
     rep.set_config(prog.config)
-    run(prog, rep)
+    _run_core(prog, rep)
     return not any(v.rule == "C03.R1" for v in rep.violations)
 
 
@@ -265,7 +287,7 @@ def _lemma_r2(prog):
     from ..engine import Report
     rep = Report("C03")
     rep.set_config(prog.config)
-    run(prog, rep)
+    _run_core(prog, rep)
     return not any(v.rule in ("C03.R2", "C03.R3") for v in rep.violations)
 
 
